@@ -413,7 +413,12 @@ DIGIT_OPTS = [('double', 'fpzip'), ('single', 'fpzip'), (8, 'fpzip'), (12.5, 'fp
 PAIR_OPTS = [(['single', 'double'], 'fpzip'), (['double', 'single'], 'fpzip'), ([7, 12], ['largest', 'smallest']),
              ([12, 7], ['smallest', 'largest']), (8, ['fpzip', 1.0]), (8, [1.0, 'fpzip']), (['double', 9], ['fpzip', 'mean']),
              ([6, 'double'], ['median', 'fpzip']), ([5, 11], [100., 0.001]), ([11, 5], 1.0), ([7, 13], 'largest'),
-             ([14, 'single'], ['logmean', 'fpzip']), (10, ['smallest', 'mean']), (['single', 10], ['fpzip', 'fpzip'])]
+             ([14, 'single'], ['logmean', 'fpzip']), (10, ['smallest', 'mean']), (['single', 10], ['fpzip', 'fpzip']),
+             # mixed kinds of reference (string / number in either position) with digits above / below the clipping
+             # thresholds 6.92 and 15.65 in either position: the clipping of an entry depends on ITS reference
+             ([8, 19], ['largest', 1.0]), ([19, 8], [1.0, 'largest']), ([3, 18], ['fpzip', 1.0]), ([18, 3], [1.0, 'mean']),
+             ([17, 20], ['median', 1.e-3]), ([5, 5], [1.0, 'smallest']), ([5, 5], ['smallest', 1.0]), ([20, 20], [1.0, 'fpzip']),
+             ([20, 20], ['fpzip', 1.0]), ([16.5, 16.5], ['logmean', 10.]), ([2, 17.5], ['mean', 1.0]), ([17.5, 2], [1.0, 'median'])]
 
 
 def rand_mask(rng, shape, pat=None, isz=1):
@@ -485,8 +490,11 @@ def mk(case, idn):
     case['id'] = idn
     if case.get('mode') == 'sd':
         q0 = build(dict(case, digits=None))
-        vp = validated_pair(case['digits'], case['reference'])
-        case['req'] = ['c11', 'sd', digit_cls(vp[0]), digit_cls(vp[1]), qobj_sx(q0, with_digits=True)]
+        d, r = case['digits'], case['reference']
+        d = list(d) if isinstance(d, (list, tuple)) else [d, d]
+        r = list(r) if isinstance(r, (list, tuple)) else [r, r]
+        case['req'] = ['c11', 'sd', digit_cls(d[0]), digit_cls(d[1]), not isinstance(r[0], str), not isinstance(r[1], str),
+                       qobj_sx(q0, with_digits=True)]
         case['nontrivial'] = bool(q0._derivs_)
         case['kind'] = 'sd:%d derivs' % len(q0._derivs_)
         return case
@@ -645,14 +653,16 @@ def gen_cases(rng, tier):
             for first in (False, True):
                 shape = rng.choice([[300], [20, 30], [7, 8, 9], [40, 41]])
                 o = rand_obj(rng, 'float', shape, lossy=True, cls=rng.choice(FLOAT_CLASSES[:4]))
-                o['vdist'] = rng.choice(['normal', 'smooth', 'uniform', 'moderate'])
+                big = any(not isinstance(x, str) and x > 15.65 for x in (digits if isinstance(digits, list) else [digits]))
+                dists = ['micro'] * 3 + ['normal'] if big else ['normal', 'smooth', 'uniform', 'moderate', 'micro']
+                o['vdist'] = rng.choice(dists)
                 o['denom'] = []
                 o['dtype'] = 'float64'
                 o['mask'] = rng.choice(['F', {'pat': 'random', 'seed': rng.randrange(1 << 30), 'p': 0.1},
                                         {'pat': 'holes', 'seed': rng.randrange(1 << 30)}])
                 derivs = rand_derivs(rng, o, True)
                 for d in derivs:
-                    d['vdist'] = rng.choice(['normal', 'smooth', 'uniform', 'moderate'])
+                    d['vdist'] = rng.choice(dists)
                     d['dtype'] = 'float64'
                     d['mask'] = rng.choice(['parent', 'parent', 'F'])
                     d.pop('dshape', None)
